@@ -26,6 +26,8 @@ pub enum Warm {
     OtherSuffix(u16),
     Unrelated(u16),
     WordAlone,
+    /// the target's word in another wrapper
+    Rewrapped(u8),
 }
 
 #[derive(Clone, Debug, Serialize, Deserialize, Hash)]
@@ -94,6 +96,10 @@ fn warm_text(c: &Case, w: &Warm) -> String {
         Warm::OtherSuffix(i) => format!("{}{}", c.base, p.suffix_keys[*i as usize % p.suffix_keys.len()]),
         Warm::Unrelated(i) => p.phonetic[*i as usize % p.phonetic.len()].clone(),
         Warm::WordAlone => word,
+        Warm::Rewrapped(k) => {
+            let (l, t) = [("(", ")"), ("\"", "\""), ("'", ""), ("", "."), ("[", "]!"), ("-", "?"), ("\"(", ""), ("{", "}:")][*k as usize % 8];
+            format!("{l}{word}{t}")
+        }
     }
 }
 
@@ -282,6 +288,7 @@ pub fn strategy() -> impl Strategy<Value = Case> {
         2 => any::<u16>().prop_map(Warm::OtherSuffix),
         1 => any::<u16>().prop_map(Warm::Unrelated),
         1 => Just(Warm::WordAlone),
+        2 => any::<u8>().prop_map(Warm::Rewrapped),
     ];
     let warm = proptest::collection::vec((warm_one, any::<bool>()), 0..5);
     let script_item = (
